@@ -155,20 +155,26 @@ class Builder:
             return MultiCrossBlock([self.factor(i) for i in b["design"]],
                                    [[self.factor(i) for i in c] for c in b["crossings"]], cs,
                                    b.get("rcc", True), **kw)
+        # an empty constraint list is not passed at all, the way users write Merge([b1, b2]) / Nest(o, i):
+        # the constructor then works on its default argument
         if k == "repeat":
-            return Repeat(self.block(b["block"]), cs)
+            return Repeat(self.block(b["block"]), cs)        # Repeat has no default for its constraints
         if k == "merge":
             kw = {}
             if b.get("mode") is not None:
                 kw["mode"] = self._mode(b["mode"])
             if b.get("alignment") is not None:
                 kw["alignment"] = self._align(b["alignment"])
-            return Merge([self.block(x) for x in b["blocks"]], cs, **kw)
+            if cs:
+                kw["constraints"] = cs
+            return Merge([self.block(x) for x in b["blocks"]], **kw)
         if k == "nest":
             kw = {}
             if b.get("alignment") is not None:
                 kw["alignment"] = self._align(b["alignment"])
-            return Nest(self.block(b["outer"]), self.block(b["inner"]), cs, **kw)
+            if cs:
+                kw["constraints"] = cs
+            return Nest(self.block(b["outer"]), self.block(b["inner"]), **kw)
         raise ValueError(k)
 
 
